@@ -23,6 +23,7 @@ import GraphiqModel.Proofs.Wire
 import GraphiqModel.Proofs.CommuteTableau
 import GraphiqModel.Proofs.CommuteRecordRw
 import GraphiqModel.Proofs.CommuteHilbert
+import GraphiqModel.Proofs.CommuteProb
 namespace Graphiq.C13
 open Graphiq Graphiq.Wire
 
@@ -464,6 +465,69 @@ theorem rewrite_preserves_compiled_record (c c' : Circuit) (hgood : c.Good) (har
   · show (TabSpec.gstate s.t).G P ↔ (TabSpec.gstate s'.t).G P
     rw [e3.1]
   · rw [Commute.finalRecord_eq, Commute.finalRecord_eq, e3.2, hnc]
+
+/-! ## 2e′. the probability of the outcome assignment
+
+  A Z measurement of a stabilizer state is deterministic (the feasible outcome has probability 1) or random (each outcome has
+  probability ½ — C07 `measurement_random_is_projection`); an outcome assignment therefore has probability `2^(-r)`, `r` the
+  number of measurements that were random when executed (`RunState.rand`).  `r` does not depend on the order either. -/
+
+/-- operations on disjoint quantum registers commute, the count of random measurements included -/
+theorem stabilizer_ops_commute_with_random_count (ne np : Nat) (a b : SOp) (h : ∀ r, r ∈ a.regs → r ∉ b.regs)
+    (s : Commute.RSt ne np) :
+    Commute.appR ne np a (Commute.appR ne np b s) = Commute.appR ne np b (Commute.appR ne np a s) :=
+  Commute.appR_comm ne np a b h s
+
+/-- **the probability of the recorded outcomes does not depend on the topological order**: two runs of the compile loop on
+    the same sane circuit along two linear extensions in which every measuring operation recorded the same outcome found
+    the same number of measurements random (and ended in the same signed stabilizer group) -/
+theorem compiled_outcome_probability_independent_of_topological_order (c : Circuit) (hgood : c.Good)
+    (har : Commute.ArityOk c) (seq1 seq2 : List Nat) (hl1 : c.isLinearExtension seq1 = true)
+    (hl2 : c.isLinearExtension seq2 = true) (d1 d2 : Det) (script1 script2 : List Bool) (s1 s2 : RunState)
+    (h1 : stabRun c.ne c.np d1 script1 ((c.sops seq1).map Commute.toCOp) = some s1)
+    (h2 : stabRun c.ne c.np d2 script2 ((c.sops seq2).map Commute.toCOp) = some s2)
+    (hout : Commute.feed c.ne c.np (c.sops seq1) s1.outs (fun _ => []) =
+      Commute.feed c.ne c.np (c.sops seq2) s2.outs (fun _ => [])) :
+    s1.rand.count true = s2.rand.count true := by
+  have r1 := Commute.stabRun_refines_rand c hgood har seq1 d1 script1 s1 h1 (fun _ => [])
+  have r2 := Commute.stabRun_refines_rand c hgood har seq2 d2 script2 s2 h2 (fun _ => [])
+  have e := compile_independent_of_topological_order (Commute.appR c.ne c.np) (Commute.appR_comm c.ne c.np) c hgood
+    seq1 seq2 hl1 hl2 (Commute.RSt.init c.ne c.np (Commute.feed c.ne c.np (c.sops seq1) s1.outs (fun _ => [])))
+  have e' := congrArg Subtype.val e
+  have e'' := (Commute.runSeq_appR_val _ _ _ _).symm.trans (e'.trans (Commute.runSeq_appR_val _ _ _ _))
+  have e3 : some (TabSpec.gstate s1.t, (fun _ => [] : Commute.Script), s1.rand.count true) =
+      some (TabSpec.gstate s2.t, (fun _ => [] : Commute.Script), s2.rand.count true) := by
+    rw [← r1, ← r2, ← hout]; exact e''
+  simp only [Option.some.injEq, Prod.mk.injEq, true_and] at e3
+  exact e3.2
+
+/-- the same for the rewrites: original and rewritten circuit, same outcome at every measuring operation ⇒ the same number
+    of random measurements, i.e. the same probability of that outcome assignment -/
+theorem rewrite_preserves_outcome_probability (c c' : Circuit) (hgood : c.Good) (har : Commute.ArityOk c)
+    (h : Rewrites c c') (seq seq' : List Nat) (hl : c.isLinearExtension seq = true)
+    (hl' : c'.isLinearExtension seq' = true) (d d' : Det) (script script' : List Bool) (s s' : RunState)
+    (h1 : stabRun c.ne c.np d script ((c.sops seq).map Commute.toCOp) = some s)
+    (h2 : stabRun c'.ne c'.np d' script' ((c'.sops seq').map Commute.toCOp) = some s')
+    (hout : Commute.feed c.ne c.np (c.sops seq) s.outs (fun _ => []) =
+      Commute.feed c'.ne c'.np (c'.sops seq') s'.outs (fun _ => [])) :
+    s.rand.count true = s'.rand.count true := by
+  have hflat := h.flat_eq hgood
+  have hne : c'.ne = c.ne := by simp only [Circuit.flat, Prod.mk.injEq] at hflat; exact hflat.1
+  have hnp : c'.np = c.np := by simp only [Circuit.flat, Prod.mk.injEq] at hflat; exact hflat.2.1
+  have r1 := Commute.stabRun_refines_rand c hgood har seq d script s h1 (fun _ => [])
+  have r2 := Commute.stabRun_refines_rand c' (h.good hgood) (Commute.Rewrites.arityOk hgood har h) seq' d' script' s' h2
+    (fun _ => [])
+  rw [hne, hnp] at r2
+  rw [hne, hnp] at hout
+  have e := rewrite_preserves_compiled_state (Commute.appR c.ne c.np) (Commute.appR_comm c.ne c.np) c c' hgood h
+    seq seq' hl hl' (Commute.RSt.init c.ne c.np (Commute.feed c.ne c.np (c.sops seq) s.outs (fun _ => [])))
+  have e' := congrArg Subtype.val e
+  have e'' := (Commute.runSeq_appR_val _ _ _ _).symm.trans (e'.trans (Commute.runSeq_appR_val _ _ _ _))
+  have e3 : some (TabSpec.gstate s'.t, (fun _ => [] : Commute.Script), s'.rand.count true) =
+      some (TabSpec.gstate s.t, (fun _ => [] : Commute.Script), s.rand.count true) := by
+    rw [← r1, ← r2, ← hout]; exact e''
+  simp only [Option.some.injEq, Prod.mk.injEq, true_and] at e3
+  exact e3.2.symm
 
 /-! ## 2f. read as quantum states
 
